@@ -88,6 +88,25 @@ def run_tlc(specdir, module, cfg, workers=16, timeout=3600, outfile=None, extra=
         raise Infra("TLC did not complete cleanly on %s/%s (exit %d):\n%s" % (module, cfg, r.returncode, "".join(tail)))
     return outfile, gen, dist
 
+def run_tlc_raw(specdir, module, trace, idx, workers=1, timeout=3000):
+    """Runs a trace specification whose invariant may legitimately be violated by the recorded
+    execution; returns (output text, generated, distinct)."""
+    cfg = "%s.run%d.cfg" % (module, idx)
+    rel = os.path.relpath(trace, specdir)
+    with open(os.path.join(specdir, module + ".cfg")) as f:
+        txt = f.read()
+    with open(os.path.join(specdir, cfg), "w") as f:
+        f.write(re.sub(r'TraceFile = "[^"]*"', 'TraceFile = "%s"' % rel, txt))
+    md = tempfile.mkdtemp(prefix="md-", dir=specdir)
+    outfile = os.path.join(specdir, "%s.run%d.out" % (module, idx))
+    with open(outfile, "w") as f:
+        r = subprocess.run(["timeout", str(timeout), "tlc", "-workers", str(workers), "-metadir", md, "-config", cfg, module],
+                           cwd=specdir, env=TLCENV, stdout=f, stderr=subprocess.STDOUT)
+    shutil.rmtree(md, ignore_errors=True)
+    out = open(outfile, errors="replace").read()
+    m = _re_states.search(out)
+    return out, (int(m.group(1)) if m else 0), (int(m.group(2)) if m else 0)
+
 def run_model(specdir, module, cfg, expect, workers=16, timeout=1800):
     """Model-checks a design-level config.  expect = "hold" or the name of the property that a
     deviation config must violate (vacuity guard, DESIGN.md 4.6).  Returns (generated, distinct)."""
